@@ -150,6 +150,18 @@ def run_graph(job):
                     outl = lines_of(r3["stdout"])
                     sel.append({"ns": ["region", f"chr1:{a}-{b}"], "status": r3["status"], "got": [l.split("\t")[0] for l in outl], "exp": [lines[k].split("\t")[0] for k in exp_k],
                                 "same_as_whole_file_conversion": outl == [S[k] for k in exp_k]})
+            # ... and TWO regions on one contig (its first and its last reference segment)
+            if r["status"] == "ok" and len(ref) >= 3:
+                ra = (segs[ref[0]]["so"], segs[ref[0]]["so"] + segs[ref[0]]["ln"] - 1)
+                rb = (segs[ref[-1]]["so"], segs[ref[-1]]["so"] + segs[ref[-1]]["ln"] - 1)
+                under2 = {x for x in segs if segs[x]["sn"] == "chr1" and any(segs[x]["so"] <= b_ and a_ < segs[x]["so"] + segs[x]["ln"] for a_, b_ in (ra, rb))}
+                exp_k = [k for k in range(len(lines)) if line_nodes[k] & under2]
+                if exp_k:
+                    o = os.path.join(d, "sel2.gaf")
+                    r4 = run_cli(["view", u, "-r", f"chr1:{ra[0]}-{ra[1]}", "-r", f"chr1:{rb[0]}-{rb[1]}", "-g", gfa, "-f", "stable", "-o", o], timeout=120)
+                    outl = lines_of(read_out(o)) if os.path.exists(o) else []
+                    sel.append({"ns": ["regions", f"chr1:{ra[0]}-{ra[1]}", f"chr1:{rb[0]}-{rb[1]}"], "status": r4["status"], "got": [l.split("\t")[0] for l in outl],
+                                "exp": [lines[k].split("\t")[0] for k in exp_k], "same_as_whole_file_conversion": outl == [S[k] for k in exp_k]})
             if r["status"] != "ok":
                 sel.append({"ns": [], "status": "index_" + r["status"], "got": [], "exp": ["x"], "same_as_whole_file_conversion": False})
         for wid, w, a, b in spans:
